@@ -114,6 +114,8 @@ def watch_local_updates(found):
     from renormalizer.tn.tree import TTNS
     o1 = MatrixProduct._update_mps
     o2 = TTNS.update_2site
+    o3 = TTNS.compress_node
+    o4 = MatrixProduct._update_ms
 
     def w1(self, *a, **kw):
         r = o1(self, *a, **kw)
@@ -137,13 +139,39 @@ def watch_local_updates(found):
                 found.append("labels:" + ",".join(f"{x}:{w}" for x, w in p[:3]))
         return r
 
+    def w3(self, *a, **kw):
+        r = o3(self, *a, **kw)
+        if not found:
+            try:
+                p = L.tree_label_problems(self)
+            except Exception as e:
+                p = [(-1, "label-check-error:" + type(e).__name__)]
+            if p:
+                found.append("labels:" + ",".join(f"{x}:{w}" for x, w in p[:3]))
+        return r
+
+    def w4(self, *a, **kw):
+        r = o4(self, *a, **kw)
+        if not found:
+            try:
+                p = L.chain_label_problems(self)
+            except Exception as e:
+                p = [(-1, "label-check-error:" + type(e).__name__)]
+            if p:
+                found.append("labels:" + ",".join(f"{x}:{w}" for x, w in p[:3]))
+        return r
+
     MatrixProduct._update_mps = w1
     TTNS.update_2site = w2
+    TTNS.compress_node = w3
+    MatrixProduct._update_ms = w4
     try:
         yield
     finally:
         MatrixProduct._update_mps = o1
         TTNS.update_2site = o2
+        TTNS.compress_node = o3
+        MatrixProduct._update_ms = o4
 
 
 def guarded(run, part, fn, *a):
